@@ -270,6 +270,7 @@ def execute(scn, guide=None, keep=False, observer=None):
     finally:
         state["restore"]()
     w = state["w"]
+    state["link_tx"] = env["link"].tx
     pwi = getattr(w, "_writer_delegate", w)
     ackev = getattr(pwi, "_ack_event", None)
     if ackev is None or not hasattr(ackev, "hist"):
@@ -394,6 +395,17 @@ def check(scn, k, fw, hist, state, lost, DeviceError, hostmsgs, ackhist, relaxed
     if relaxed:
         state["strays"] = strays
 
+    if not relaxed:
+        tx_seq = {}
+        for t in state.get("link_tx", []):
+            tx_seq.setdefault(t["text"].rstrip("\r\n"), t["seq"])
+        for c in calls:
+            cl = [s_ for (op, s_) in ackhist if op == "clear" and s_ > c["call"]]
+            ts = tx_seq.get(stmts[c["i"]])
+            if cl and ts and any(a_ is not None and cl[0] < a_ < ts for a_ in acted):
+                k.probe("c16.ack_processed_between_clear_and_send")
+            if cl and c["out"] and any(a_ is not None and c["call"] < a_ < cl[0] for a_ in acted):
+                k.probe("c16.ack_processed_between_call_and_clear")
     for c in calls:
         i = c["i"]
         if c["kind"] is None:
